@@ -56,6 +56,9 @@ def jobs(pid, tier, seed, bins, Job, mix, miri_env):
                 flags += " -Zmiri-tree-borrows"
             rounds = 8 if quick else 60
             argv = ["cargo", "+nightly", "miri", "run", "--offline", "--", "mt", "--small", "--no-probes", "--prop", str(n), "--rounds", str(rounds), "--seed", str(s)]
+            if i % 2:
+                # failpoints in their yield-only form: no locks, no memory-ordering effect in Miri's model
+                argv += ["--failpoints", "100"]
             out.append(Job(f"miri-mt/{i}", argv, env=miri_env(flags), timeout=600 if quick else 3000, tool="miri"))
     if pid in MIRI_ST_PROPS:
         reps = (6 if pid in MIRI_MT_PROPS else 12) if quick else 32
@@ -77,7 +80,7 @@ def jobs(pid, tier, seed, bins, Job, mix, miri_env):
         for i in range(reps):
             if pid == "C07":
                 continue
-            argv = [bins["asan"], "mt", "--no-probes", "--prop", str(n), "--seed", str(mix(seed, pid, "asan-mt", i)), "--rounds", str(1200 if quick else 40_000), "--budget-ms", str(20_000 if quick else 500_000)]
+            argv = [bins["asan"], "mt", "--no-probes", "--failpoints", str([40, 0, 15][i % 3]), "--prop", str(n), "--seed", str(mix(seed, pid, "asan-mt", i)), "--rounds", str(2500 if quick else 60_000), "--budget-ms", str(20_000 if quick else 500_000)]
             out.append(Job(f"asan-mt/{i}", argv, env=env, timeout=300 if quick else 1500, tool="asan"))
         for i in range(reps):
             argv = [bins["asan"], "run", "--prop", str(n), "--seed", str(mix(seed, pid, "asan-st", i)), "--histories", str(8000 if quick else 200_000), "--budget-ms", str(25_000 if quick else 500_000), "--no-poison"]
